@@ -404,4 +404,140 @@ theorem dNumber_eqv (lc : Libc) (h : Eqv t t') (hs : t.stack = top :: rest) (hst
 
 end states
 
+/-- **simulation, one dispatch**: `Eqv` tokeners take the same branch of `switch (state)` and end `Eqv` -/
+theorem disp_eqv (lc : Libc) {t t' : Tok} (h : Eqv t t') (l : Loc) (c : UInt8) :
+    ActEqv (disp lc t l c) (disp lc t' l c) := by
+  unfold disp
+  rw [← h.stack]
+  cases hs : t.stack with
+  | nil => exact rfl
+  | cons top rest =>
+    simp only
+    cases hst : top.state <;> simp only
+    · exact dEatws_eqv l c h hs hst
+    · exact dStart_eqv l c h hs hst
+    · exact dFinish_eqv l h hs hst
+    · exact dNull_eqv l c h hs hst
+    · exact dCommentStart_eqv l c h hs hst
+    · exact dComment_eqv l c h hs hst
+    · exact dCommentEol_eqv l c h hs hst
+    · exact dCommentEnd_eqv l c h hs hst
+    · exact dString_eqv l c h hs hst
+    · exact dStringEscape_eqv l c h hs hst
+    · exact dEscapeUnicode_eqv l c h hs hst
+    · exact dNeedEscape_eqv l c h hs hst
+    · exact dNeedU_eqv l c h hs hst
+    · exact dBoolean_eqv l c h hs hst
+    · exact dNumber_eqv l c lc h hs hst
+    · exact dArray_eqv l c _ h hs (Or.inl hst)
+    · exact rfl
+    · exact dArraySep_eqv l c h hs hst
+    · exact dObjectFieldStart_eqv l c _ h hs (Or.inl hst)
+    · exact dObjectField_eqv l c h hs hst
+    · exact dObjectFieldEnd_eqv l c h hs hst
+    · exact pushLevel_eqv l _ h
+    · exact rfl
+    · exact dObjectSep_eqv l c h hs hst
+    · exact dArray_eqv l c _ h hs (Or.inr hst)
+    · exact dObjectFieldStart_eqv l c _ h hs (Or.inr hst)
+    · exact dInf_eqv l c h hs hst
+
+theorem feedN_eqv (lc : Libc) : ∀ (n : Nat) {t t' : Tok}, Eqv t t' → ∀ (l : Loc) (c : UInt8),
+    ActEqv (feedN lc n t l c) (feedN lc n t' l c) := by
+  intro n
+  induction n with
+  | zero => intro t t' h l c; exact ⟨h, rfl⟩
+  | succ n ih =>
+    intro t t' h l c
+    have hd := disp_eqv lc h l c
+    simp only [feedN]
+    cases h1 : disp lc t l c <;> cases h2 : disp lc t' l c <;> rw [h1, h2] at hd <;>
+      first
+        | exact hd.elim
+        | (obtain ⟨he, hl⟩ := hd; subst hl; exact ih he _ c)
+        | exact hd
+
+theorem feed_eqv (lc : Libc) {t t' : Tok} (h : Eqv t t') (l : Loc) (c : UInt8) :
+    ActEqv (feed lc t l c) (feed lc t' l c) := feedN_eqv lc fuel h l c
+
+/-- loop results, equal up to dead scratch fields -/
+structure LoopEqv (e e' : LoopEnd) : Prop where
+  tok : Eqv e.tok e'.tok
+  loc : e.loc = e'.loc
+  c : e.c = e'.c
+  offset : e.offset = e'.offset
+  stop : e.stop = e'.stop
+
+theorem peek_eqv {t t' : Tok} (h : Eqv t t') (l : Loc) (b : UInt8) : peek t l b = peek t' l b := by
+  unfold peek Tok.validateUtf8; rw [h.flags]
+
+theorem run_eqv (lc : Libc) (data : Bytes) : ∀ {t t' : Tok}, Eqv t t' → ∀ (l : Loc) (c : UInt8) (off : Nat),
+    LoopEqv (run lc t l c off data) (run lc t' l c off data) := by
+  induction data with
+  | nil => intro t t' h l c off; exact ⟨h, rfl, rfl, rfl, rfl⟩
+  | cons b bs ih =>
+    intro t t' h l c off
+    simp only [run]
+    rw [← peek_eqv h l b]
+    cases peek t l b with
+    | none => exact ⟨h, rfl, rfl, rfl, rfl⟩
+    | some l1 =>
+      simp only
+      have hf := feed_eqv lc h l1 b
+      cases h1 : feed lc t l1 b <;> cases h2 : feed lc t' l1 b <;> rw [h1, h2] at hf <;>
+        first
+          | exact hf.elim
+          | (simp only; exact ⟨h, rfl, rfl, rfl, by rw [show _ = _ from hf]⟩)
+          | (obtain ⟨he, hl⟩ := hf; subst hl; simp only
+             first
+               | exact ⟨he, rfl, rfl, rfl, rfl⟩
+               | (split
+                  · exact ⟨he, rfl, rfl, rfl, rfl⟩
+                  · exact ih he _ _ _))
+          | (obtain ⟨hx, he, hl⟩ := hf; subst hl; subst hx; exact ⟨he, rfl, rfl, rfl, rfl⟩)
+
+theorem finalErr_eqv {e e' : LoopEnd} (h : LoopEqv e e') : finalErr e = finalErr e' := by
+  obtain ⟨t, l, c, off, st⟩ := e
+  obtain ⟨t', l', c', off', st'⟩ := e'
+  obtain ⟨ht, hl, hc, ho, hst⟩ := h
+  simp only at ht hl hc ho hst
+  subst hl hc ho hst
+  have h1 : topState t = topState t' := by unfold topState; rw [ht.stack]
+  have h2 : t.strict = t'.strict := by unfold Tok.strict; rw [ht.flags]
+  have h3 : t.allowTrailing = t'.allowTrailing := by unfold Tok.allowTrailing; rw [ht.flags]
+  have h4 : t.validateUtf8 = t'.validateUtf8 := by unfold Tok.validateUtf8; rw [ht.flags]
+  unfold finalErr loopErr
+  simp only [h1, h2, h3, h4, ht.stack]
+
+/-- results of a call, equal up to dead scratch fields of the tokener left behind -/
+structure FinalEqv (f f' : Final) : Prop where
+  err : f.err = f'.err
+  value : f.value = f'.value
+  offset : f.offset = f'.offset
+  stuck : f.stuck = f'.stuck
+  fault : f.fault = f'.fault
+  tok : Eqv f.tok f'.tok
+
+theorem epilogue_eqv {e e' : LoopEnd} (h : LoopEqv e e') : FinalEqv (epilogue e) (epilogue e') := by
+  have hf := finalErr_eqv h
+  have hc : topCurrent e.tok = topCurrent e'.tok := by unfold topCurrent; rw [h.tok.stack]
+  unfold epilogue
+  simp only [hf, h.stop, h.offset, hc]
+  split
+  · exact ⟨rfl, rfl, rfl, rfl, rfl, eqv_of_fresh rfl rfl h.tok.maxDepth h.tok.flags h.tok.hs⟩
+  · exact ⟨rfl, rfl, rfl, rfl, rfl, h.tok⟩
+
+theorem parseEx_finalEqv (lc : Libc) {t t' : Tok} (h : Eqv t t') (data : Bytes) :
+    FinalEqv (parseEx lc t data) (parseEx lc t' data) :=
+  epilogue_eqv (run_eqv lc data h {} 1 0)
+
+/-- **simulation, one call**: `Eqv` tokeners give the same status, value, end offset (and no
+stuck / fault difference), and are left `Eqv` -/
+theorem parseEx_eqv (lc : Libc) (t t' : Tok) (h : Eqv t t') (data : Bytes) :
+    let f := parseEx lc t data; let f' := parseEx lc t' data
+    f.err = f'.err ∧ f.value = f'.value ∧ f.offset = f'.offset ∧ f.stuck = f'.stuck ∧ f.fault = f'.fault ∧
+      Eqv f.tok f'.tok :=
+  have r := parseEx_finalEqv lc h data
+  ⟨r.err, r.value, r.offset, r.stuck, r.fault, r.tok⟩
+
 end JsonC.Tokener
